@@ -7,7 +7,7 @@ from pyvc.api import Task
 PROPERTY = "C43"
 CEN = "src/pkgcore/config/central.py"
 LEVEL = "other"
-EXPLANATION = ("bounded stand-in only: _get_inherited_sections is a worklist loop over a list it extends while iterating (breadth-first search); the self-built "
+EXPLANATION = ("the inheritance order is a bounded stand-in (the first-definition-wins step is proved): _get_inherited_sections is a worklist loop over a list it extends while iterating (breadth-first search); the self-built "
                "generator cuts loops with invariants over a fixed iterable and has no frame for a growing worklist, so the breadth-first order is not proved.  "
                "The real ConfigManager is run on every small tree-shaped inheritance graph (and cyclic / dangling variants) and compared with an independent "
                "breadth-first reference.")
@@ -17,7 +17,9 @@ MANIFEST = {
             "each on two levels), every assignment of 3 keys to the sections, one or two config sources where the later source redefines "
             "a section (including self-inherit through the sources), is collapsed with the real ConfigManager and compared with an "
             "independent breadth-first reference; every graph with an inheritance cycle, a missing target or a self-inherit with no "
-            "older source must raise ConfigurationError; seeded random deeper trees.",
+            "older source must raise ConfigurationError; seeded random deeper trees.  Under contract and proved for any number of stacked "
+            "sections: _ConfigStack.render_value takes a key's value from the first stacked section that sets it (None when none does).  The "
+            "breadth-first collection order stays bounded, hence level 'other'.",
     "note": "Trusted: HardCodedConfigSection rendering of values, the @configurable type hints; inheritance graphs that are not trees "
             "(a section reachable twice) are outside the statement's domain: pkgcore reports them as recursive.",
 }
@@ -146,8 +148,77 @@ def enum_graphs(seed):
             "(self-inherit through the sources); 6 cyclic / dangling graphs", "cases": cases, "failures": fails}
 
 
+def t_render_value(ex):
+    """_ConfigStack.render_value: among the stacked sections of a key (own section first, then the inherited ones in the order they were
+    collected), the value comes from the first one that sets the key; None when none does -- for any number of stacked sections"""
+    import z3
+    from pyvc.api import call, Interp
+    from pyvc.interp import LoopSpec
+    from pyvc.loops import IterView
+    from pyvc.models import Model, ModelHost
+    from pyvc.sym import KInt, SBool, SInt, And, OutOfSubset
+    from pyvc import theory
+    P = "C43._ConfigStack.render_value"
+    n = KInt.fresh("stacked_sections")
+    ex.assume(n >= 0)
+    HAS = theory.ufun("section_sets_key", z3.IntSort(), z3.BoolSort())
+    manager, the_key = object(), "the-key"
+    asked = []
+
+    class Section(ModelHost):
+        def __init__(self, j):
+            self.j = j
+
+        def contains(self, it_, x):
+            asked.append(x)
+            return SBool(HAS(self.j.t if isinstance(self.j, SInt) else z3.IntVal(self.j)))
+
+        def getattr(self, it_, name):
+            if name == "render_value":
+                return Model(lambda it__, m, k, t: ("rendered", self.j, m, k, t), "section.render_value")
+            raise OutOfSubset(name)
+
+    class Data(ModelHost):
+        def __init__(self, j):
+            self.j = j
+
+        def getattr(self, it_, name):
+            if name == "section":
+                return Section(self.j)
+            raise OutOfSubset(name)
+
+    class Stack(ModelHost):
+        def getattr(self, it_, name):
+            if name == "get":
+                return Model(lambda it__, k, d=None: IterView(n, lambda j: Data(j if isinstance(j, (int, SInt)) else SInt(j)), "stack[key]") if k == the_key else d, "dict.get")
+            raise OutOfSubset(name)
+
+    def inv(L, k):
+        j = z3.Int("j!c43")
+        return SBool(z3.ForAll([j], z3.Implies(z3.And(j >= 0, j < (k.t if isinstance(k, SInt) else k)), z3.Not(HAS(j)))))
+    it = Interp(ex, label=P, loops={("_ConfigStack.render_value", 0): LoopSpec(inv)})
+    out = call(it, it.target(CEN, "_ConfigStack.render_value"), Stack(), manager, the_key, "str")
+    ex.oblige(f"{P}.raises.nothing", not out.raised, kind="exceptional-postcondition")
+    if out.raised:
+        return
+    r = out.value
+    j = z3.Int("j!c43post")
+    if r is None:
+        ex.cover("no section sets the key")
+        ex.oblige(f"{P}.ensures.None_only_when_no_stacked_section_sets_the_key", SBool(z3.ForAll([j], z3.Implies(z3.And(j >= 0, j < n.t), z3.Not(HAS(j))))))
+    else:
+        ex.cover("some section sets the key")
+        ok = isinstance(r, tuple) and r[0] == "rendered" and r[2] is manager and r[3] == the_key and r[4] == "str"
+        ex.oblige(f"{P}.ensures.value_rendered_by_a_stacked_section_with_the_callers_arguments", ok)
+        if ok:
+            w = r[1].t if isinstance(r[1], SInt) else z3.IntVal(r[1])
+            ex.oblige(f"{P}.ensures.it_is_the_first_stacked_section_that_sets_the_key",
+                      SBool(z3.And(w >= 0, w < n.t, HAS(w), z3.ForAll([j], z3.Implies(z3.And(j >= 0, j < w), z3.Not(HAS(j)))))))
+
+
 def tasks():
-    return [Task("C43.collapse", None, [(CEN, "ConfigManager._get_inherited_sections"), (CEN, "ConfigManager.collapse_section")], enumerate=enum_graphs)]
+    return [Task("C43.collapse", None, [(CEN, "ConfigManager._get_inherited_sections"), (CEN, "ConfigManager.collapse_section")], enumerate=enum_graphs),
+            Task("C43.render_value", t_render_value, [(CEN, "_ConfigStack.render_value")])]
 
 
 REPLAY = {}
